@@ -62,4 +62,56 @@ theorem row_o4 (n a b c : Bytes) : sprintf (Facts.regOldFormats.getD 4 []) [n, a
   unfold sprintf; rw [parse_o4]; simp [render]
 theorem head_o : ofString "-- TOTAL  " = [45, 45, 32] ++ ofString "TOTAL " ++ [32] := by decide +kernel
 
+/-! the period reporters, the balance reporters and `print`: formats with number verbs -/
+@[simp] theorem fmtFixedW_zero (p : Nat) (v : Q) : Num.fmtFixedW 0 p v = Num.fmtFixed p v := by simp [Num.fmtFixedW]
+
+theorem parse_t0 : parseFmt (Facts.totalFormats.getD 0 [])
+    = [.str false 12, .lit 32, .lit 32, .str false 12, .lit 32, .lit 32, .str false 12, .lit 32, .lit 32, .str false 0, .lit 10] := by decide +kernel
+theorem parse_t1 : parseFmt (Facts.totalFormats.getD 1 [])
+    = [.flt 12 2, .lit 32, .lit 32, .flt 12 2, .lit 32, .lit 32, .flt 12 2, .lit 32, .lit 32, .str false 0, .lit 10] := by decide +kernel
+theorem row_t0 (a b c d : Bytes) : sprintfA (Facts.totalFormats.getD 0 []) [.s a, .s b, .s c, .s d]
+    = padLeft 32 12 a ++ [32, 32] ++ padLeft 32 12 b ++ [32, 32] ++ padLeft 32 12 c ++ [32, 32] ++ d ++ [10] := by
+  unfold sprintfA; rw [parse_t0]; simp [render]
+theorem row_t1 (x y z : Q) (n : Bytes) : sprintfA (Facts.totalFormats.getD 1 []) [.q x, .q y, .q z, .s n]
+    = Num.fmtFixedW 12 2 x ++ [32, 32] ++ Num.fmtFixedW 12 2 y ++ [32, 32] ++ Num.fmtFixedW 12 2 z ++ [32, 32] ++ n ++ [10] := by
+  unfold sprintfA; rw [parse_t1]; simp [render]
+
+theorem parse_q0 : parseFmt (Facts.quantityFormats.getD 0 []) = [.flt 0 2, .lit 9, .str false 0, .lit 10] := by decide +kernel
+theorem parse_q1 : parseFmt (Facts.quantityFormats.getD 1 []) = [.flt 0 2, .lit 9, .str false 0, .lit 10] := by decide +kernel
+theorem row_q0 (v : Q) (n : Bytes) : sprintfA (Facts.quantityFormats.getD 0 []) [.q v, .s n] = Num.fmtFixed 2 v ++ [9] ++ n ++ [10] := by
+  unfold sprintfA; rw [parse_q0]; simp [render]
+theorem row_q1 (v : Q) (n : Bytes) : sprintfA (Facts.quantityFormats.getD 1 []) [.q v, .s n] = Num.fmtFixed 2 v ++ [9] ++ n ++ [10] := by
+  unfold sprintfA; rw [parse_q1]; simp [render]
+
+theorem parse_b (i : Nat) (h : i < 4) : parseFmt (Facts.balanceFormats.getD i [])
+    = [.flt 10 2, .lit 32, .lit 124, .lit 32, .str false 0, .str false 0, .lit 10] := by
+  have : i = 0 ∨ i = 1 ∨ i = 2 ∨ i = 3 := by omega
+  rcases this with rfl | rfl | rfl | rfl <;> decide +kernel
+theorem row_b (i : Nat) (h : i < 4) (t : Q) (ind label : Bytes) : sprintfA (Facts.balanceFormats.getD i []) [.q t, .s ind, .s label]
+    = Num.fmtFixedW 10 2 t ++ [32, 124, 32] ++ ind ++ label ++ [10] := by
+  unfold sprintfA; rw [parse_b i h]; simp [render]
+
+theorem parse_bs0 : parseFmt (Facts.balanceSingleFormats.getD 0 []) = [.str false 0, .lit 124, .lit 10] := by decide +kernel
+theorem parse_bs1 : parseFmt (Facts.balanceSingleFormats.getD 1 []) = [.flt 10 2, .lit 32, .lit 124, .lit 32, .str false 0, .lit 10] := by decide +kernel
+theorem row_bs0 (a : Bytes) : sprintfA (Facts.balanceSingleFormats.getD 0 []) [.s a] = a ++ [124, 10] := by
+  unfold sprintfA; rw [parse_bs0]; simp [render]
+theorem row_bs1 (t : Q) (x : Bytes) : sprintfA (Facts.balanceSingleFormats.getD 1 []) [.q t, .s x] = Num.fmtFixedW 10 2 t ++ [32, 124, 32] ++ x ++ [10] := by
+  unfold sprintfA; rw [parse_bs1]; simp [render]
+
+theorem parse_p0 : parseFmt (Facts.printFormats.getD 0 []) = [.str false 0, .lit 58, .lit 10] := by decide +kernel
+theorem parse_p1 : parseFmt (Facts.printFormats.getD 1 [])
+    = [.lit 32, .lit 32, .lit 35, .lit 32, .str false 0, .lit 58, .lit 32, .str false 0, .lit 10] := by decide +kernel
+theorem parse_p2 : parseFmt (Facts.printFormats.getD 2 []) = [.lit 32, .lit 32, .lit 35, .lit 32, .str false 0, .lit 10] := by decide +kernel
+theorem parse_p3 : parseFmt (Facts.printFormats.getD 3 [])
+    = [.lit 32, .lit 32, .lit 45, .lit 32, .str false 0, .lit 58, .lit 32, .flt 0 2, .lit 10] := by decide +kernel
+theorem row_p0 (d : Bytes) : sprintfA (Facts.printFormats.getD 0 []) [.s d] = d ++ [58, 10] := by
+  unfold sprintfA; rw [parse_p0]; simp [render]
+theorem row_p1 (n v : Bytes) : sprintfA (Facts.printFormats.getD 1 []) [.s n, .s v] = [32, 32, 35, 32] ++ n ++ [58, 32] ++ v ++ [10] := by
+  unfold sprintfA; rw [parse_p1]; simp [render]
+theorem row_p2 (v : Bytes) : sprintfA (Facts.printFormats.getD 2 []) [.s v] = [32, 32, 35, 32] ++ v ++ [10] := by
+  unfold sprintfA; rw [parse_p2]; simp [render]
+theorem row_p3 (n : Bytes) (v : Q) : sprintfA (Facts.printFormats.getD 3 []) [.s n, .q v] = [32, 32, 45, 32] ++ n ++ [58, 32] ++ Num.fmtFixed 2 v ++ [10] := by
+  unfold sprintfA; rw [parse_p3]; simp [render]
+theorem print_precision : Facts.printPrecision = 2 := by decide
+
 end Hrano.Tmpl
